@@ -124,7 +124,7 @@ func checks() []Check {
 			Assumptions: commonAssumptions,
 			Units: []Unit{
 				{Name: "math", Pkg: "pkg/math", Test: "TestMC_C20", Weight: 16},
-				{Name: "bsindex", Pkg: "pkg/pool/byteslice", Test: "TestMC_C20idx", Weight: 16},
+				{Name: "bsindex", Pkg: "pkg/pool/byteslice", Test: "TestMC_C20idx", Weight: 16}, {Name: "rbindex", Pkg: "pkg/pool/ringbuffer", Test: "TestMC_C20rbidx"},
 				{Name: "gfd", Pkg: "internal/gfd", Test: "TestMC_C20gfd", Weight: 1},
 			},
 		},
